@@ -277,3 +277,89 @@ func CF(kind int, p string, f func(m []string) string) Classifier {
 func only(target ssa.Instruction) func(ssa.Instruction) bool {
 	return func(in ssa.Instruction) bool { return in == target }
 }
+
+// innermostLoop returns the header of the innermost natural loop containing
+// instruction in, and the terminators of the blocks that jump back to it.
+func innermostLoop(in ssa.Instruction) (header *ssa.BasicBlock, backs []ssa.Instruction) {
+	blk := in.Block()
+	fn := blk.Parent()
+	reach := func(from, to *ssa.BasicBlock, avoid *ssa.BasicBlock) bool {
+		seen := map[*ssa.BasicBlock]bool{}
+		st := []*ssa.BasicBlock{from}
+		for len(st) > 0 {
+			x := st[len(st)-1]
+			st = st[:len(st)-1]
+			if x == to {
+				return true
+			}
+			if seen[x] || x == avoid {
+				continue
+			}
+			seen[x] = true
+			st = append(st, x.Succs...)
+		}
+		return false
+	}
+	for _, h := range fn.Blocks {
+		if !h.Dominates(blk) {
+			continue
+		}
+		var bs []ssa.Instruction
+		for _, p := range h.Preds {
+			if h.Dominates(p) && (p == blk || reach(blk, p, h)) {
+				bs = append(bs, p.Instrs[len(p.Instrs)-1])
+			}
+		}
+		if len(bs) == 0 {
+			continue
+		}
+		if header == nil || header.Dominates(h) {
+			header, backs = h, bs
+		}
+	}
+	return
+}
+
+func anyOf(ins []ssa.Instruction) func(ssa.Instruction) bool {
+	return func(in ssa.Instruction) bool {
+		for _, x := range ins {
+			if x == in {
+				return true
+			}
+		}
+		return false
+	}
+}
+
+// flowsToReturn reports whether v reaches a return operand through phis.
+func flowsToReturn(v ssa.Value) bool {
+	seen := map[ssa.Value]bool{}
+	var walk func(v ssa.Value) bool
+	walk = func(v ssa.Value) bool {
+		if seen[v] || v.Referrers() == nil {
+			return false
+		}
+		seen[v] = true
+		for _, ref := range *v.Referrers() {
+			switch x := ref.(type) {
+			case *ssa.Return:
+				return true
+			case *ssa.Phi:
+				if walk(x) {
+					return true
+				}
+			case *ssa.Store:
+				// spilled named result
+				if a, ok := x.Addr.(*ssa.Alloc); ok && a.Referrers() != nil {
+					for _, r2 := range *a.Referrers() {
+						if u, ok := r2.(*ssa.UnOp); ok && walk(u) {
+							return true
+						}
+					}
+				}
+			}
+		}
+		return false
+	}
+	return walk(v)
+}
